@@ -189,7 +189,7 @@ def geometry(rep, idx, c, ctor, calls):
                   f"is {ir.show(kwarg(mm, 'data_width') or ('const', None))}; granularity is {ir.show(G)}")
     adds = [x for x, gen, ln in ctor.calls_named("add_resource")]
     ok = len(adds) == 1 and kwarg(adds[0], 'size') == ('name', 'size') and \
-        adds[0][1][1] == ctor.parse("self.wb_bus.memory_map")
+        (adds[0][1][1] == ctor.parse("self.wb_bus.memory_map") or (mm is not None and mm[0] == 'call' and adds[0][1][1] == mm))
     rep.check(ok, "C15.4", site, "one resource of `size` granules in the published map",
               f"add_resource calls: {[ir.show(a) for a in adds]}")
     # write granularity = bus granularity
